@@ -167,6 +167,8 @@ func runWriterCensus(c *Ctx, sp writerSpec) []Obligation {
 		construct := "writes " + sp.field
 		if role, ok := sp.permitted[name]; ok {
 			obs = append(obs, mkOb(c, rule, a.u, construct, a.first, Proved, "permitted writer ("+strings.Join(ks, ",")+"): "+role, false))
+		} else if via, ok := c.privateHelperOf(a.u.Obj, func(n string) bool { _, p := sp.permitted[n]; return p }, 0); ok {
+			obs = append(obs, mkOb(c, rule, a.u, construct, a.first, Proved, "private helper called only by permitted writer(s): "+via, false))
 		} else {
 			obs = append(obs, mkOb(c, rule, a.u, construct, a.first, Violated,
 				"function is not among the confirmed writers of "+sp.field+" ("+strings.Join(ks, ",")+"); permitted: "+strings.Join(sortedKeys(sp.permitted), ", "), false))
@@ -220,6 +222,8 @@ func runCallerCensus(c *Ctx, sp callerSpec) []Obligation {
 		construct := "uses " + sp.target
 		if role, ok := sp.permitted[name]; ok {
 			obs = append(obs, mkOb(c, sp.rule, a.u, construct, a.f, Proved, fmt.Sprintf("permitted user (%d sites): %s", a.n, role), false))
+		} else if via, ok := c.privateHelperOf(a.u.Obj, func(n string) bool { _, p := sp.permitted[n]; return p }, 0); ok {
+			obs = append(obs, mkOb(c, sp.rule, a.u, construct, a.f, Proved, "private helper called only by permitted user(s): "+via, false))
 		} else {
 			obs = append(obs, mkOb(c, sp.rule, a.u, construct, a.f, Violated,
 				fmt.Sprintf("function is not among the confirmed users of %s (%d sites); permitted: %s", sp.target, a.n, strings.Join(sortedKeys(sp.permitted), ", ")), false))
@@ -293,4 +297,47 @@ func init() {
 			Doc: "the functions that call " + sp.target + " are exactly the confirmed set",
 			Run: func(c *Ctx) []Obligation { return runCallerCensus(c, sp) }})
 	}
+}
+
+// privateHelperOf: is f a private helper of the allowed functions?  True when f
+// is unexported, is never used as a value, has at least one call site in the
+// module, and every function that calls it is allowed or is itself such a
+// helper.  A census ("only these functions may do X") is about where X
+// originates; statements moved unchanged from an allowed function into a helper
+// only that function calls have not gained an origin.  The helper's name is
+// reported with the function it serves.
+func (c *Ctx) privateHelperOf(f *types.Func, allowed func(name string) bool, depth int) (string, bool) {
+	if f == nil || f.Exported() || depth > 3 {
+		return "", false
+	}
+	sites, refs := c.CallsTo(func(string) bool { return true }, f)
+	if len(refs) > 0 || len(sites) == 0 {
+		return "", false
+	}
+	var via []string
+	seen := map[string]bool{}
+	for _, s := range sites {
+		name := s.Unit.Name()
+		if s.Unit.Obj == originOf(f) {
+			continue // recursion
+		}
+		if seen[name] {
+			continue
+		}
+		seen[name] = true
+		if allowed(name) {
+			via = append(via, name)
+			continue
+		}
+		if inner, ok := c.privateHelperOf(s.Unit.Obj, allowed, depth+1); ok {
+			via = append(via, name+" ("+inner+")")
+			continue
+		}
+		return "", false
+	}
+	if len(via) == 0 {
+		return "", false
+	}
+	sort.Strings(via)
+	return strings.Join(via, ", "), true
 }
